@@ -127,7 +127,7 @@ Qed.
 
 (* escapeJsString answers OutOfModel only where String() itself does (floats outside the printing domain) *)
 Theorem dir_escape_js_total v args s :
-  value_string v = Ok s -> dir_escape_js (Some v) args = Ok (Some (VStr (js_escape is_print_tbl s))).
+  value_string v = Ok s -> dir_escape_js (Some v) args = Ok (Some (VStr (js_escape_soy jsstr_pair_html is_print_tbl s))).
 Proof. intros H. unfold dir_escape_js. rewrite H. reflexivity. Qed.
 
 (* json on a value without floats is total: a string, whatever the value's String() does *)
